@@ -232,7 +232,7 @@ inductive Out (α : Type) where
   | err
   | ok (a : α)
   | stuck
-deriving Repr, Inhabited
+deriving Repr, Inhabited, DecidableEq
 
 def Solver.fromEdgeList (es : List Edge) (s t : Nat) : Solver :=
   { g := residualEK es, maxFlow := 0, finished := false, source := s, target := t }
